@@ -1,7 +1,49 @@
-(* Props/C11.v — property C11: Normalize reorders any contract-abiding stream losslessly
-   into sequential order. *)
-From CV Require Import Model.Base Model.Events Model.Contract Model.Normalize Proofs.BaseP Proofs.NormalizeP.
+(* Props/C11.v — property C11: Normalize reorders any contract-abiding stream losslessly into sequential order. *)
+From CV Require Import Model.Base Model.Events Model.Contract Model.Normalize Proofs.BaseP Proofs.NormalizeP Proofs.NormalizeP2.
+From Coq Require Import Permutation.
 
+(* LOSSLESS. `accepts_run` is the queue discipline the Runner contract guarantees (every event belongs to an
+   entity that is buffered and not yet finished; a bracket closes only when everything inside it is finished;
+   nothing follows an attempt's Finished). That the contract implies it is validated on every generated stream
+   by Check/C11Check.v (sub-check 2), not proved. *)
+
+(* the emission loops only ever move a PREFIX of the buffer to the inner writer: nothing is dropped,
+   duplicated or reordered inside the buffer *)
+Theorem C11_emission_moves_a_prefix :
+  forall s1, nwf s1 = true ->
+    let '(o1, fs) := emit_feats (ns_feats s1) in
+    let '(fin, st) := take_fin (ns_state s1) in
+    let s' := mk_ns fs st in
+    let out := o1 ++ match fin with Some m => [(m, EvFinished)] | None => [] end in
+    out ++ pending s' = pending s1 /\ nwf s' = true /\ (fin_pending (ns_state s1) = true -> pending s' = []).
+Proof. exact emit_moves_a_prefix. Qed.
+
+(* queueing adds exactly the new event to the buffer *)
+Theorem C11_queueing_adds_exactly_the_event :
+  forall s e, nwf s = true -> is_pass (snd e) = false -> naccept s (snd e) = true ->
+    nwf (enqueue s e) = true /\ Permutation (pending (enqueue s e)) (pending s ++ [e]).
+Proof. exact enqueue_adds_one. Qed.
+
+(* per call: delivered ++ still buffered  ~  previously buffered ++ [new event] *)
+Theorem C11_lossless_per_call :
+  forall s e, nwf s = true -> resting s = true -> accepts s (snd e) = true ->
+    Permutation (snd (nhandle s e) ++ pending (fst (nhandle s e))) (pending s ++ [e]).
+Proof. intros s e W R A. destruct (handle_lossless s e W R A) as (_ & _ & P & _). exact P. Qed.
+
+(* whole run: the inner writer receives exactly the same multiset of events, and nothing stays buffered
+   once run-Finished has been handled (it is forwarded in the call that queues it, after everything else) *)
+Theorem C11_lossless :
+  forall es, accepts_run ninit es = true -> existsb (fun e => is_finished (snd e)) es = true ->
+    Permutation (concat (nrun es)) es.
+Proof. exact run_lossless_complete. Qed.
+
+Theorem C11_nothing_left_after_finished :
+  forall es, accepts_run ninit es = true -> existsb (fun e => is_finished (snd e)) es = true ->
+    pending (nfinal ninit es) = [].
+Proof. intros es A F. exact (pending_after_finished es ninit eq_refl eq_refl A eq_refl F). Qed.
+
+(* IMMEDIATE. run-Started, ParsingFinished and parser errors are forwarded first thing in the same call;
+   after run-Finished everything is passed through *)
 Theorem C11_immediate :
   forall s e, is_emitted (ns_state s) = false -> is_pass (snd e) = true ->
     exists o, snd (nhandle s e) = e :: o.
@@ -10,3 +52,13 @@ Proof. exact nhandle_pass. Qed.
 Theorem C11_passthrough_after_finished :
   forall s e, is_emitted (ns_state s) = true -> nhandle s e = (s, [e]).
 Proof. exact nhandle_after_finished. Qed.
+
+Example C11_nonvacuous :
+  let es := [(1, EvStarted); (2, EvFeatS 1); (3, EvFeatS 2); (4, EvScen 2 None 7 None ScStarted);
+             (5, EvScen 1 None 5 None ScStarted); (6, EvScen 2 None 7 None ScFinished); (7, EvFeatF 2);
+             (8, EvScen 1 None 5 None ScFinished); (9, EvFeatF 1); (10, EvFinished)] in
+  accepts_run ninit es = true /\ contract (map snd es) = true /\
+  concat (nrun es) = [(1, EvStarted); (2, EvFeatS 1); (5, EvScen 1 None 5 None ScStarted); (8, EvScen 1 None 5 None ScFinished);
+                      (9, EvFeatF 1); (3, EvFeatS 2); (4, EvScen 2 None 7 None ScStarted); (6, EvScen 2 None 7 None ScFinished);
+                      (7, EvFeatF 2); (10, EvFinished)].
+Proof. vm_compute. auto. Qed.
